@@ -23,6 +23,7 @@ type typeSlot struct {
 	kind   string // scalar:string | scalar:int | other
 	pos    string
 	tables map[string]bool // struct-field tables updated on the path
+	term   string          // key of the term written (literal slots)
 }
 
 func (w *World) typeSlots() ([]typeSlot, []string) {
@@ -69,9 +70,13 @@ func (w *World) typeSlots() ([]typeSlot, []string) {
 				case e.Kind == "loophead" || e.Kind == "fieldstore" || e.Kind == "mapupdate" || e.Kind == "register":
 					continue
 				case strings.HasPrefix(e.Kind, "scalar:"):
-					out = append(out, typeSlot{name, hdr, e.Kind, e.Pos, tables})
+					tk := ""
+					if len(e.Args) > 0 && e.Args[0] != nil {
+						tk = e.Args[0].key
+					}
+					out = append(out, typeSlot{name, hdr, e.Kind, e.Pos, tables, tk})
 				default:
-					out = append(out, typeSlot{name, hdr, "other:" + e.Kind, e.Pos, tables})
+					out = append(out, typeSlot{name, hdr, "other:" + e.Kind, e.Pos, tables, ""})
 				}
 				hdr = ""
 			}
@@ -139,6 +144,29 @@ func (w *World) ruleTypeSlots(r *Report, rule string) {
 			} else if a.fact == "" {
 				a.fact = "literal types are numbered in " + strings.Join(sortedKeys(s.tables), ",") + " on the path that writes them"
 			}
+		}
+	}
+	// the forms of one writer announce the same name: a list must not change its
+	// wire type with its length (compact form vs counted form)
+	names := map[string]map[string]string{}
+	for _, s := range slots {
+		if s.kind != "scalar:string" || s.term == "" {
+			continue
+		}
+		if names[s.writer] == nil {
+			names[s.writer] = map[string]string{}
+		}
+		names[s.writer][s.term] = s.hdr + " at " + s.pos
+	}
+	for wr, m := range names {
+		if len(m) > 1 {
+			var parts []string
+			for t, where := range m {
+				parts = append(parts, t+" (after "+where+")")
+			}
+			sort.Strings(parts)
+			key := wr + " · every form announces the same type name"
+			res[key] = &agg{ok: false, pos: "-", count: len(m), fact: "the typed forms of one writer write different names: " + strings.Join(parts, "; ") + " — the same Go type goes out under two wire types depending on which form its length selects"}
 		}
 	}
 	var ks []string
